@@ -6,6 +6,7 @@ import (
 	"math"
 	"math/big"
 	"net/url"
+	"os"
 	"reflect"
 	"sort"
 	"strings"
@@ -41,6 +42,9 @@ func (c *RobustCase) sx() string     { return fmt.Sprintf("(case %s (robust))", 
 func (c *RobustCase) note() string   { return c.Note }
 func (c *RobustCase) expect() string { return "" }
 func (c *RobustCase) runImpl() string {
+	if os.Getenv("VERIF_DEBUG") != "" {
+		fmt.Fprintf(os.Stderr, "DEBUG %s kind=%s note=%s\n", c.ID, c.Kind, c.Note)
+	}
 	outs := c.run()
 	law := "1"
 	for _, o := range outs {
@@ -395,7 +399,10 @@ func genLoaderCase(r *rng, id string) *RobustCase {
 			rs, err = s.Resolve(opts)
 			return err
 		})}
-		if rs != nil {
+		// a loader that answers every URI with the root, with a document that refers back to the root in
+		// place, or with an ever longer chain can close an in-place reference cycle, which C10 excludes
+		// ("provided schema recursion passes through an instance-descending keyword"): Resolve only
+		if rs != nil && mode != "root" && mode != "backref" && mode != "selfuniverse" {
 			for _, in := range vc.Insts {
 				outs = append(outs, classify(func() error { return rs.Validate(in.V) }))
 			}
